@@ -27,7 +27,7 @@ def write_layout(d, layout, dtype="f8"):
         p = d / f"forcing_{k:03d}.nc"
         # each file carries its own time reference: the frames are what the decoded times say
         rf.write_roms(p, imax=6, jmax=5, N=2, times=times, u=u, v=vv, extra={"temp": t}, dtype=dtype,
-                      time_ref_shift=[0, -86400, 900, 86400][k % 4])
+                      time_ref_shift=[0, -86400, 900, 86400][k % 4], time_unit=["s", "d", "h", "s"][(k + len(frames)) % 4])
         names.append(p)
     return names
 
